@@ -60,7 +60,17 @@ def convert(raw, sid):
         else:
             sched.append({"s": "env", "op": "setfield", "res": res, "name": "p", "path": ["metadata", "labels", "userlab"], "value": "u%d" % i})
     sched += [{"s": "run", "a": "A"}, {"s": "deliver"}, {"s": "sync", "a": "A", "key": key}, {"s": "run", "a": "A"}]
+    style = raw.get("style", "ml")
+    if style == "me":
+        lsel = {"matchExpressions": [{"key": "deco", "operator": "In", "values": ["yes", "ja"]}]}
+        asel = {"matchExpressions": [{"key": "adeco", "operator": "Exists", "values": []}]}
+    elif style == "mixed":
+        lsel = {"matchLabels": {"deco": "yes"}, "matchExpressions": [{"key": "keep", "operator": "Exists", "values": []}]}
+        asel = {"matchAnnotations": {"keepa": "yes"}, "matchExpressions": [{"key": "adeco", "operator": "In", "values": ["yes"]}]}
+    else:
+        lsel = {"matchLabels": {"deco": "yes"}}
+        asel = {"matchAnnotations": {"adeco": "yes"}}
     cfg = {"kind": "decorator", "parentRes": res, "children": [{"res": "things", "method": "InPlace"}],
-           "dselLabels": {"matchLabels": {"deco": "yes"}}, "dselAnn": {"matchAnnotations": {"adeco": "yes"}}}
+           "dselLabels": lsel, "dselAnn": asel}
     return {"id": sid, "fam": "dec", "cfg": cfg, "objs": objs, "hook": {"sync": sync}, "sched": sched,
             "expect": {"model": {"final": raw["final"]}}}
